@@ -37,6 +37,7 @@ func (x *Exec) exec(st *State, fr *Frame, in ssa.Instruction) []*State {
 		val := x.get(fr, v.Val)
 		x.checkStore(st, fr, in, p)
 		x.checkNonNilStore(st, fr, in, p, val)
+		x.checkStoreInv(st, fr, v, p, val)
 		if p.Kind != PCell {
 			x.checkEscape(st, fr, in, val)
 		}
@@ -316,6 +317,34 @@ func (x *Exec) checkNonNilStore(st *State, fr *Frame, in ssa.Instruction, p *Ptr
 			x.safety(st, fr, in, "nil-field-stored", nonNilVal(val))
 		}
 	}
+}
+
+// checkStoreInv: a declared store invariant of a field is asserted when the written object
+// was not allocated by the storing function itself (objects under construction are exempt:
+// what they must satisfy is stated where they are handed out).
+func (x *Exec) checkStoreInv(st *State, fr *Frame, v *ssa.Store, p *PtrV, val Val) {
+	if p.Kind != PField || len(x.cs.StoreInvs) == 0 {
+		return
+	}
+	si := x.cs.StoreInvs[structName(p.Owner)+"."+p.Path]
+	if si == nil {
+		return
+	}
+	if fa, ok := v.Addr.(*ssa.FieldAddr); ok && locallyAllocated(fr.fn, fa.X, 0) {
+		return
+	}
+	env := x.envFor(st, fr)
+	env.vars["v"] = val
+	env.types["v"] = v.Val.Type()
+	if pk := x.ld.pkgByName[si.Pkg]; pk != nil {
+		env.pkg = pk
+	}
+	t, err := env.evalBool(si.Expr)
+	if err != nil {
+		x.errors = append(x.errors, fmt.Sprintf("%s: storeinv %s: %v", si.Where, si.Field, err))
+		return
+	}
+	x.safety(st, fr, v, "store-invariant:"+si.Field, t)
 }
 
 // checkEscape: a slice made with make([]T, n) for a non-nil element type must be filled
@@ -1118,7 +1147,7 @@ func (x *Exec) atReturn(st *State, fr *Frame, v *ssa.Return, res Val) {
 			x.errors = append(x.errors, fmt.Sprintf("%s: use@post: %v", u.Where, err))
 			continue
 		}
-		st.assume(t)
+		st.assumeUse(t)
 	}
 	if rs := c.Rets[site]; len(rs) > 0 {
 		x.checkClauses(st, env, rs, "assert", x.topKey, site, true)
